@@ -178,7 +178,11 @@ def lemma_count_in():
     obs = [
         _ob("L-count/char/base", "names of the empty prefix", [defN], charN(z3.IntVal(0))),
         _ob("L-count/char/step", "x in N(n+1) => some position below n+1 carries x", [defN, n >= 0, charN(n)], charN(n + 1)),
-        _ob("L-count/base", "count over the empty prefix = |S & {}|", [defN, defC, card_ax], C(0) == card(z3.SetIntersect(Sset, N(0)))),
+        # base: only the ground conjuncts of the three definitions are needed (fewer hypotheses = a stronger lemma).  With the quantified
+        # halves of defN/defC/card_ax among the hypotheses z3 needed 14-15 s of a 15 s budget on this query (instantiation of the
+        # card(store(A, x, true)) axiom is a matching loop) and the verdict flipped with machine load; ground, it is decided in ms.
+        _ob("L-count/base", "count over the empty prefix = |S & {}|", [N(0) == empty, C(0) == 0, card(empty) == 0],
+            C(0) == card(z3.SetIntersect(Sset, N(0)))),
         _ob("L-count/step/fresh", "the name at position n is not among the first n names", [defN, distinct, n >= 0, charN(n)], z3.Not(z3.Select(N(n), nm(n)))),
         _ob("L-count/step/in", "count over n+1 elements = |S & N(n+1)|, new name in S",
             [defN, defC, n >= 0, z3.Not(z3.Select(N(n), nm(n))), z3.Select(Sset, nm(n)), C(n) == card(I_n),
